@@ -1899,6 +1899,38 @@ class IndexNameScopes(Base):
       s.q @= pick(1) + 2
 
 
+# ------------------------------------------------------------------ a block / net that reads bits of the signal it writes
+def _overlap_ref(st, a, b, sel, en, reset):
+  lo = a & 0xF
+  b2, b3 = bit(a, 2), bit(a, 3)
+  v = lo | (b2 << 4) | (b3 << 5) | (b2 << 6) | (b3 << 7)
+  return None, {"o": v}
+
+
+@design(_overlap_ref)
+class OverlapSelfNet(Base):
+  """a connection between two OVERLAPPING slices of one signal: bit by bit acyclic (b4=b2, b5=b3, b6=b4, b7=b5), but the
+  generated net block reads and writes the same signal"""
+  def construct(s):
+    s.ports()
+    s.o = OutPort(Bits8)
+    s.o[0:4] //= s.a[0:4]
+    s.o[4:8] //= s.o[2:6]
+
+
+@design(_overlap_ref)
+class OverlapSelfBlock(Base):
+  """the same dependence written as one update block"""
+  def construct(s):
+    s.ports()
+    s.o = OutPort(Bits8)
+    s.o[0:4] //= s.a[0:4]
+
+    @update
+    def up_osb():
+      s.o[4:8] @= s.o[2:6]
+
+
 def sequences():
   """input sequences (lists of dicts): one long deterministic walk covering every (sel, en) with varied a, b; reset pulses inside"""
   A = (0, 1, 0x5A, 0xFF, 0x80, 0x0F, 0x37)
